@@ -1,7 +1,8 @@
 ---- MODULE MC_Vol ----
 (* Bounded instance for C01: every file set from the pool, every order, several path spellings. *)
-EXTENDS Vol, Scen
-CONSTANTS MaxFiles, Big      \* Big: member sizes around the 128 KiB copy chunk instead of the small residues
+EXTENDS Vol, Scen, Rand
+CONSTANTS MaxFiles, Big, Seed, NRand     \* Seed / NRand: the seeded random family (NRand file sets drawn from a wide name alphabet)
+\* Big     \* Big: member sizes around the 128 KiB copy chunk instead of the small residues
 VARIABLES kind, fset, fsz
 vars == <<kind, fset, fsz>>
 \* name pool built to hit the ordering corners: "a" "A" "B" "ab" "a_" "a.b" "Z9" "a-" ".a"
@@ -14,10 +15,8 @@ ToLower(s) == FoldS(s)
 Seqs(S, n) == [1..n -> S]
 Member(ix, sz, id) == [name |-> Pool[ix], size |-> sz, data |-> << Blob(id, 0, sz) >>, kind |-> Uncompressed]
 PathOf(d, ix) == Dirs[d] \o Pool[ix]
-Scenario(ixs, szs, ds) ==
-  LET n == Len(ixs)
-      ms == [i \in 1..n |-> Member(ixs[i], szs[i], i)]
-      paths == [i \in 1..n |-> PathOf(ds[i], ixs[i])]
+ScenarioOf(ms, paths) ==
+  LET n == Len(ms)
       samePath == \E i, j \in 1..n : i # j /\ paths[i] = paths[j]        \* one file listed twice: same name, refused as duplicate
       puts == [i \in 1..n |-> Put(paths[i], ms[i].data)]
       refused == HasDup(ms)
@@ -35,6 +34,7 @@ Scenario(ixs, szs, ds) ==
               \o [i \in 1..n |-> FileEq(paths[i], ms[i].data)]
          ELSE << VolCreate(OutName, paths, "ok"), FileEq(OutName, Layout(s)), VolOpen(OutName, listing) >>
               \o perMember \o << VolMemberErr(Len(s)), VolMemberErr(Len(s) + 1), VolIndex(<<113>>, NoIndex), VolExtractAll(<<122>>) >>)
+Scenario(ixs, szs, ds) == ScenarioOf([i \in 1..Len(ixs) |-> Member(ixs[i], szs[i], i)], [i \in 1..Len(ixs) |-> PathOf(ds[i], ixs[i])])
 \* the output path names one of the inputs (same spelling up to letter case and a leading "./"): refused, nothing modified
 OutVariants == << OutName, <<46,47>> \o OutName, ToUpper(OutName), <<46,47,79,46,118,111,108>> >>       \* "o.vol" "./o.vol" "O.VOL" "./O.vol"
 SelfScenario(v, extra) ==
@@ -47,21 +47,32 @@ SelfScenario(v, extra) ==
 Distinct(ixs) == \A i, j \in DOMAIN ixs : i # j => ixs[i] # ixs[j]
 \* ---- one TLC state per input: the file set (indices into the name pool, sizes) or a "self" case ------------------------------------------
 \* The model-level laws are INVARIANTs evaluated in every state; Export (an invariant that always holds) prints the state's scenario.
-Init == \/ /\ kind = "set"
+\* ---- the seeded random family: names over letters of both cases, digits and the punctuation that sorts between / around the letters ----
+NameAlphabet == << 97, 98, 122, 65, 66, 90, 48, 57, 95, 45, 46, 91, 93, 94, 96, 126, 33, 40 >>      \* a b z A B Z 0 9 _ - . [ ] ^ ` ~ ! (
+RandName(r, i) == Draw(Seed * 101 + r, 10 + i, 1 + Below(Seed * 101 + r, 3, i, 7), NameAlphabet)
+RandSize(r, i) == LET c == Below(Seed * 101 + r, 4, i, 10) IN IF c = 0 THEN 0 ELSE IF c = 1 THEN 131070 + Below(Seed * 101 + r, 5, i, 5) ELSE Below(Seed * 101 + r, 6, i, 300)
+RandMembers(r) == [i \in 1..Below(Seed * 101 + r, 1, 0, 7) |-> [name |-> RandName(r, i), size |-> RandSize(r, i), data |-> << Blob(i, 0, RandSize(r, i)) >>, kind |-> Uncompressed]]
+RandPaths(r) == LET ms == RandMembers(r) IN [i \in 1..Len(ms) |-> Dirs[Below(Seed * 101 + r, 7, i, Len(Dirs)) + 1] \o ms[i].name]
+\* names that are not usable as a single path component are left out of the family
+Usable(name) == name # <<46>> /\ name # <<46, 46>>
+Init == \/ /\ kind = "rand" /\ fset \in {<<r>> : r \in 1..NRand} /\ fsz = <<>>
+           /\ \A i \in 1..Len(RandMembers(fset[1])) : Usable(RandMembers(fset[1])[i].name)
+        \/ /\ kind = "set"
            /\ \E n \in 0..MaxFiles : fset \in Seqs(1..Len(Pool), n) /\ fsz \in Seqs(Sizes, n)
            /\ Distinct(fset)
         \/ /\ kind = "self" /\ ~Big
            /\ fset \in {<<v, extra>> : v \in 1..Len(OutVariants), extra \in {1, 3}} /\ fsz = <<>>
 Next == UNCHANGED vars
 Spec == Init /\ [][Next]_vars
-Members == [i \in 1..Len(fset) |-> Member(fset[i], fsz[i], i)]
+Members == IF kind = "rand" THEN RandMembers(fset[1]) ELSE [i \in 1..Len(fset) |-> Member(fset[i], fsz[i], i)]
 \* every layout of a duplicate-free file set is well-formed under the format description (C02)
-LayoutWellFormed == (kind = "set" /\ ~HasDup(Members)) => WellFormed(SortCI(Members))
+LayoutWellFormed == (kind \in {"set", "rand"} /\ ~HasDup(Members)) => WellFormed(SortCI(Members))
 \* sorting is a permutation that puts the names in ascending case-blind order (C01)
-SortedAscending == kind = "set" => LET s == SortCI(Members) IN
+SortedAscending == kind \in {"set", "rand"} => LET s == SortCI(Members) IN
                      /\ Len(s) = Len(Members) /\ \A i \in 1..(Len(s) - 1) : ~Less(s[i + 1].name, s[i].name)
                      /\ \A m \in {Members[i] : i \in 1..Len(Members)} : \E j \in 1..Len(s) : s[j] = m
-Export == IF kind = "self" THEN PrintT("S|" \o ToJson([id |-> <<"self", fset>>, steps |-> SelfScenario(fset[1], fset[2])]))
+Export == IF kind = "rand" THEN (LET sc == ScenarioOf(RandMembers(fset[1]), RandPaths(fset[1])) IN sc # <<>> => PrintT("S|" \o ToJson([id |-> <<"rand", Seed, fset[1]>>, steps |-> sc])))
+          ELSE IF kind = "self" THEN PrintT("S|" \o ToJson([id |-> <<"self", fset>>, steps |-> SelfScenario(fset[1], fset[2])]))
           ELSE LET n == Len(fset)
                    \* one spelling vector per (fset, fsz), rotating through the directories
                    ds == [i \in 1..n |-> ((fset[i] + fsz[i] + i) % Len(Dirs)) + 1]
